@@ -98,6 +98,8 @@ class AuthSession(object):
             raise ValueError('No mechanisms available')
 
     def _parse_arg(self, arg):
+        if not arg:
+            raise InvalidMechanismError()
         match = noarg_pattern.match(arg)
         if match:
             return match.group(1).upper(), None
